@@ -207,6 +207,9 @@ def gen_env(rng, world, allow_dtype=True, allow_ino=True):
         plan["stat"] = {p: {"ino": base + i} for p, i in zip(paths, perm)}
     plan["entropy"] = rng.getrandbits(48)
     plan["clock"] = [1700000000 * 10 ** 9, 0]
+    if rng.random() < 0.12:
+        # the consumer of stdout accepts fewer bytes than offered (legal for any write(2)): no property may depend on it
+        plan["out_accept"] = {"cycle": True, "sizes": rng.choice([[1], [7], [64, 3], [500], [1000, 24, 1], [rng.randint(1, 2000) for _ in range(3)]])}
     return cls, plan
 
 
